@@ -15,6 +15,16 @@ def is_lambda_or_wrapped(lam: Py) -> B:
     return False
 
 
+def module_has_stmt(lam: Py) -> B:
+    """Input invariant of lambda_unwrap (from its call sites: modules come from ast.parse of a
+    lambda's source): a Module is non-empty and starts with an expression statement."""
+    if isinstance(lam, ast.Module):
+        if len(lam.body) >= 1:
+            return isinstance(lam.body[0], ast.Expr)
+        return False
+    return True
+
+
 def unwrap_spec(lam: Py) -> Py:
     if isinstance(lam, ast.Module):
         if len(lam.body) >= 1 and isinstance(lam.body[0], ast.Expr):
@@ -32,16 +42,38 @@ def names_of(args: Py) -> L:
     return []
 
 
-def arg_nodes(names: L) -> L:
-    if is_empty(names):
-        return []
-    return cons(ast.arg(head(names), None), arg_nodes(tail(names)))
+def wrapped1(lam: Py) -> B:
+    """A Lambda, or a Module with EXACTLY one statement that is Expr(Lambda) (what lambda_test
+    accepts)."""
+    if isinstance(lam, ast.Lambda):
+        return True
+    if isinstance(lam, ast.Module):
+        if len(lam.body) != 1:
+            return False
+        if not isinstance(lam.body[0], ast.Expr):
+            return False
+        return isinstance(lam.body[0].value, ast.Lambda)
+    return False
 
 
-def name_nodes(names: L) -> L:
-    if is_empty(names):
-        return []
-    return cons(ast.Name(head(names)), name_nodes(tail(names)))
+def lambda_nargs(lam: Py) -> I:
+    """Number of positional parameters of a (possibly wrapped) lambda; -1 if not of that shape."""
+    if isinstance(unwrap_spec(lam), ast.Lambda):
+        if isinstance(unwrap_spec(lam).args, ast.arguments):
+            return len(unwrap_spec(lam).args.args)
+    return -1
+
+
+def lambda_body_of(lam: Py) -> Py:
+    if isinstance(unwrap_spec(lam), ast.Lambda):
+        return unwrap_spec(lam).body
+    return None
+
+
+def lambda_args_of(lam: Py) -> Py:
+    if isinstance(unwrap_spec(lam), ast.Lambda):
+        return unwrap_spec(lam).args
+    return None
 
 
 def is_identity_lambda(lam: Py) -> B:
@@ -88,18 +120,9 @@ def is_true_lambda_core(lb: Py) -> B:
     return lb.body.value is True
 
 
-def is_docstring_stmt(b: Py) -> B:
-    if isinstance(b, ast.Expr):
-        return isinstance(b.value, ast.Constant)
-    return False
-
-
 def interesting(body: L) -> L:
-    if is_empty(body):
-        return []
-    if is_docstring_stmt(head(body)):
-        return interesting(tail(body))
-    return cons(head(body), interesting(tail(body)))
+    """Statements of a function body that are not bare constant expressions (docstrings)."""
+    return [b for b in body if not (isinstance(b, ast.Expr) and isinstance(b.value, ast.Constant))]
 
 
 def single_return(f: Py) -> B:
